@@ -31,6 +31,10 @@ pub struct Trace {
     pub sweep_trunc: bool,
     pub flush_end: bool,
     pub reqs: Vec<Req>,
+    /// consumer reuse: one Loader object consumes a first parse cut at this byte and then a second
+    /// parse of header + the stream's instructions from this index on
+    #[serde(default)]
+    pub reuse: Option<(usize, usize)>,
 }
 
 pub struct C04;
@@ -105,7 +109,7 @@ fn decoder_lane(bytes: &[u8], flush_end: bool, reqs: &[Req], cov: &mut Cov) -> O
                 let _ = d.word();
             }
             Req::Words(n) => {
-                let _ = d.words(*n as usize);
+                let _ = d.words((*n).min(usize::MAX as u64) as usize);
             }
             Req::Str => {
                 let _ = d.string();
@@ -161,7 +165,11 @@ fn gen_reqs(rng: &mut Rng, nwords: u64) -> Vec<Req> {
     for _ in 0..n {
         v.push(match rng.below(14) {
             0 | 1 => Req::Word,
-            2 => Req::Words(rng.below(7) as u32),
+            2 => Req::Words(match rng.below(6) {
+                0 => u64::MAX,
+                1 => 1 << 62,
+                _ => rng.below(7),
+            }),
             3 | 4 | 5 => Req::Str,
             6 => Req::Bit64,
             7 => Req::Typed(rng.below(TYPED_KINDS.len() as u64) as u32),
@@ -279,9 +287,20 @@ impl Property for C04 {
             Source::Stream(st) => st.encode().0.len() as u64,
         };
         let reqs = if rng.chance(1, 2) { gen_reqs(rng, nwords) } else { vec![] };
+        let reuse = match &source {
+            Source::Stream(st) if !st.insts.is_empty() && rng.chance(1, 4) => {
+                let (w, starts) = st.encode();
+                // cut right after some instruction's first words (often inside an open block), resume anywhere
+                let j = rng.usize_below(starts.len());
+                let cut = (starts[j] + rng.usize_below(3)).min(w.len()) * 4;
+                Some((cut, rng.usize_below(st.insts.len())))
+            }
+            _ => None,
+        };
         Trace {
             source,
             faults,
+            reuse,
             sweep_trunc: rng.chance(1, 30),
             flush_end: rng.chance(3, 4),
             reqs,
@@ -308,6 +327,28 @@ impl Property for C04 {
         cov.triple(t.faults.first().map(|f| f.code()).unwrap_or(0), accepted as u32, (bytes.len() % 4) as u32);
         if viol.is_none() {
             viol = decoder_lane(&bytes, t.flush_end, &t.reqs, cov);
+        }
+        if viol.is_none() {
+            if let (Some((cut, from)), Source::Stream(st)) = (&t.reuse, &t.source) {
+                let (w, starts) = st.encode();
+                if let Some(s0) = starts.get(*from) {
+                    let first = &bytes[..(*cut).min(bytes.len())];
+                    let mut second_words = w[..5].to_vec();
+                    second_words.extend_from_slice(&w[*s0..]);
+                    let second = words_to_bytes(&second_words);
+                    let g1 = GuardedBuf::new(first, true);
+                    let g2 = GuardedBuf::new(&second, true);
+                    let mut loader = dr::Loader::new();
+                    cov.hit("reached.loader_reused_across_parses");
+                    let r = guarded(|| {
+                        let _ = rspirv::binary::Parser::new(g1.bytes(), &mut loader).parse();
+                        let _ = rspirv::binary::Parser::new(g2.bytes(), &mut loader).parse();
+                    });
+                    if let Err(pi) = r {
+                        viol = Some(stage_violation("loader_reused", &pi, 2000));
+                    }
+                }
+            }
         }
         if viol.is_none() && t.sweep_trunc {
             for k in 0..bytes.len() {
@@ -347,6 +388,11 @@ impl Property for C04 {
                 out.push(c);
             }
             return out;
+        }
+        if t.reuse.is_some() {
+            let mut c = t.clone();
+            c.reuse = None;
+            out.push(c);
         }
         if !t.reqs.is_empty() {
             let mut c = t.clone();
